@@ -305,7 +305,10 @@ func run(prop, tier string) int {
 				if tf == "" {
 					tf = "trace.ndjson"
 				}
-				if msg, err := corruptTrace(filepath.Join(work, tf), os.Getenv("VERIF_CORRUPT")); err != nil {
+				if msg, err := corruptTrace(filepath.Join(work, tf), os.Getenv("VERIF_CORRUPT")); err != nil && strings.Contains(err.Error(), "no line with") {
+					// a check with several recorded traces: the field belongs to another one
+					fmt.Println("SELFTEST left " + tf + " alone: " + err.Error())
+				} else if err != nil {
 					broken = "self-test: cannot corrupt " + tf + ": " + err.Error()
 					break
 				} else {
